@@ -96,6 +96,7 @@ class Session:
         if key in self.runs: return self.runs[key]
         self.assume_ptrs(var)
         m = Machine(var.prog, solver=self.sol, hw=var.hw, ports=var.ports, max_back=self.max_back, max_steps=self.max_steps, max_paths=self.max_paths)
+        m.extents = var.layout.extents
         t = time.time()
         outs = m.run(self.init_state(var))
         self.queries += m.queries; self.solver_s += time.time() - t
@@ -167,7 +168,7 @@ class Session:
 def events_differ(ea, eb):
     if len(ea) != len(eb): return True
     ds = []
-    for (ka, aa, va), (kb, ab, vb) in zip(ea, eb):
+    for (ka, aa, va, _ca), (kb, ab, vb, _cb) in zip(ea, eb):
         if ka != kb: return True
         if is_c(aa) and is_c(ab):
             if aa != ab: return True
@@ -190,6 +191,7 @@ def run_concrete(var, regs, mem, max_steps=200000):
     m2.update(var.layout.rom)
     s = conc_state(regs, m2)
     mach = Machine(var.prog, hw=var.hw, ports=var.ports, max_back=10 ** 9, max_steps=max_steps)
+    mach.extents = var.layout.extents
     outs = mach.run(s)
     return outs[0] if outs else None
 
@@ -216,7 +218,7 @@ def confirm(sess, out, va, vb, names, events=False):
         return (sa is None) != (sb is None), detail
     oa, ob = concrete_obs(va, names, sa), concrete_obs(vb, names, sb)
     diffs = {k: (oa[k], ob[k]) for k in oa if oa[k] != ob[k]}
-    if events and [(k, a, v) for k, a, v in sa.events] != [(k, a, v) for k, a, v in sb.events]:
+    if events and [x[:3] for x in sa.events] != [x[:3] for x in sb.events]:
         diffs['events'] = (sa.events, sb.events)
     detail['diffs'] = {k: v for k, v in list(diffs.items())[:12]}
     return bool(diffs), detail
